@@ -11,11 +11,12 @@ namespace c05
 constexpr int max_id = 12; // original elements have ids 0..max_id-1
 constexpr int derived = max_id; // an element a continuation builds from an lvalue x has id x.id + derived
 enum : unsigned char { alive = 1, moved_from = 2, destroyed = 3 };
-enum : unsigned { err_read_moved = 1, err_touch_destroyed = 2, err_double_destroy = 4, err_bad_result = 8, err_cont_lvalue = 16 };
+enum : unsigned { err_read_moved = 1, err_touch_destroyed = 2, err_double_destroy = 4, err_bad_result = 8 };
 
 inline int g_copies = 0;   // copy constructions + copy assignments
 inline int g_moves = 0;    // move constructions + move assignments
 inline unsigned g_errors = 0;
+inline int g_lvalue_calls = 0; // an operation on an rvalue argument handed its continuation an lvalue (xfc only)
 inline std::uint32_t g_val[max_id];
 
 // id + symbolic payload; every special member function logs.  K only makes distinct types (either / variant
@@ -95,6 +96,7 @@ inline void reset()
   g_copies = 0;
   g_moves = 0;
   g_errors = 0;
+  g_lvalue_calls = 0;
 }
 // counters start after the arguments have been built
 inline void begin_op()
@@ -125,14 +127,17 @@ struct xf
     else return E{std::move(x)};
   }
 };
-// the same, additionally flagging when an rvalue operation hands the continuation an lvalue (the element cannot be moved on)
+// the same, additionally counting when an operation on an rvalue hands the continuation an lvalue (the element cannot
+// be moved on; a by-value continuation would copy, a move-only element type is rejected).  Used for the operations whose
+// interface passes the element on by move (move_type / move_if_rvalue on the element); fold-like operations that pass
+// lvalues by design use xf.
 template <int C>
 struct xfc
 {
   template <typename T>
   std::remove_cvref_t<T> operator()(T &&x) const
   {
-    if constexpr (C == RV && std::is_lvalue_reference_v<T>) g_errors |= err_cont_lvalue;
+    if constexpr (C == RV && std::is_lvalue_reference_v<T>) ++g_lvalue_calls;
     return xf{}(std::forward<T>(x));
   }
 };
@@ -155,12 +160,13 @@ struct census
 
 struct msgs
 {
-  char const *nocopy, *noerr, *count, *unchanged, *nomove;
+  char const *nocopy, *noerr, *count, *unchanged, *nomove, *fwd;
 };
 #define C05_MSGS(op) \
   c05::msgs { op ": no element of an rvalue argument is copied", op ": no moved-from or destroyed element is read, results are alive and carry their value", \
               op ": every element appears in the result as often as documented (never twice)", op ": lvalue argument is unchanged (not moved from, not assigned)", \
-              op ": nothing is moved or copied when no element is involved" }
+              op ": nothing is moved or copied when no element is involved", \
+              op ": elements of an rvalue argument reach the continuation as rvalues (move-only types accepted)" }
 
 // an argument element passed as lvalue must be exactly as before
 template <int K>
@@ -170,6 +176,7 @@ template <int C>
 inline void verdict(msgs const &m)
 {
   if constexpr (C == RV) verif_assert(g_copies == 0, m.nocopy);
+  if constexpr (C == RV) verif_assert(g_lvalue_calls == 0, m.fwd);
   verif_assert(g_errors == 0, m.noerr);
 }
 }
